@@ -10,7 +10,7 @@
    the same statement is tested on every run against an independent series in 100-digit arithmetic. *)
 From Coq Require Import Reals List Lra.
 From Coquelicot Require Import Coquelicot.
-From Manif Require Import Scalar Mat Group RInst Generic LieSpec SO2 SE2 SO3 SE3 SE23 SGal3 Rn Ode ExpSpec Exp_SE2 Exp_SO3 Exp_SE3 Exp_SE23 Exp_SGal3 Jr_SE2 Taylor_SE2 Taylor_SO3.
+From Manif Require Import Scalar Mat Group RInst Generic LieSpec SO2 SE2 SO3 SE3 SE23 SGal3 Rn Ode ExpSpec Exp_SE2 Exp_SO3 Exp_SE3 Exp_SE23 Exp_SGal3 Jr_SE2 Taylor_SE2 Taylor_SO3 Jr_SO3 Jr_SE3 Taylor_SE3 Taylor_SE23.
 Import ListNotations.
 Local Open Scope R_scope.
 
@@ -74,6 +74,22 @@ Theorem C02_SO3_taylor_bound eps x y z : 0 < eps -> 0 < x * x + y * y + z * z ->
   Rabs (1 - cos (sqrt (x * x + y * y + z * z) / 2)) <= (x * x + y * y + z * z) / 8.
 Proof. intros _. exact (so3_exp_taylor_bound eps x y z). Qed.
 Print Assumptions C02_SO3_taylor_bound.
+
+(* SE3 below the switch-over (|theta|^2 <= eps <= 1): the translation of exp is (I + W/2) rho; against the closed form
+   V(theta) rho = vrho (the translation column of the matrix exponential, C02_exp_SE3_generic's G(1)) each component is within
+   |theta|^2 (|a| + |b| + |c|): uniformly at most eps relative to the size of the translation.  (The same V block serves the
+   translation and the velocity of SE_2(3).) *)
+Theorem C02_SE3_taylor_bound eps a b c x y z i : 0 < eps -> eps <= 1 -> 0 < x * x + y * y + z * z -> x * x + y * y + z * z <= eps -> (i < 3)%nat ->
+  Rabs (nth i (se3_exp RS eps [a; b; c; x; y; z]) 0 - vrho i a b c x y z) <= (x * x + y * y + z * z) * (Rabs a + Rabs b + Rabs c).
+Proof.
+  intros H0 H1 Hn Hle Hi. rewrite (se3_exp_small_translation eps a b c x y z i Hle Hi).
+  apply (se3_taylor_bound a b c x y z i Hn ltac:(lra) Hi).
+Qed.
+Theorem C02_SE23_taylor_bound eps a b c x y z d e f i : 0 < eps -> 0 < x * x + y * y + z * z -> x * x + y * y + z * z <= eps -> eps <= 1 -> (i < 3)%nat ->
+  Rabs (nth i (se23_exp RS eps [a; b; c; x; y; z; d; e; f]) 0 - vrho i a b c x y z) <= (x * x + y * y + z * z) * (Rabs a + Rabs b + Rabs c) /\
+  Rabs (nth (7 + i) (se23_exp RS eps [a; b; c; x; y; z; d; e; f]) 0 - vrho i d e f x y z) <= (x * x + y * y + z * z) * (Rabs d + Rabs e + Rabs f).
+Proof. intros _. exact (se23_taylor_bound eps a b c x y z d e f i). Qed.
+Print Assumptions C02_SE3_taylor_bound.
 
 (* non-vacuity: the hypotheses are met far from the small-angle region, beyond pi and for large translations *)
 Example C02_nonvacuous : (25 / 1125899906842624 <= 7 * 7) /\ (25 / 1125899906842624 < 3 * 3 + 4 * 4 + 12 * 12).
